@@ -191,6 +191,14 @@ CheckAllowed(pre, post, ret, nerrs) ==
     /\ (nerrs = 0) <=> (Offending(pre) = {})
     /\ nerrs >= Cardinality(Offending(pre))
 
+\* "at least one error FOR EACH offending relationship": blamed = the (type, relationship) pairs that the
+\* texts of the errors name (every text of schema.go says: relationship "name" ... "owning type").  A text
+\* the harness cannot read (unparsed > 0: the wording changed) leaves the count as the only witness.
+BlameOK(pre, blamed, unparsed) ==
+    \/ unparsed > 0
+    \/ \A p \in Offending(pre) :
+          \E j \in 1..Len(blamed) : blamed[j][1] = pre[p[1]].name /\ blamed[j][2] = pre[p[1]].rels[p[2]].fn
+
 -----------------------------------------------------------------------------
 (* The pinned code's deviations, as named predicates over one event.       *)
 (* They identify entries of known_findings.jsonl; they are never used to   *)
